@@ -122,14 +122,15 @@ func (c *fnCtx) mutexPrologue(fd *ast.FuncDecl, fieldTypes map[string]ast.Expr) 
 // ---------------------------------------------------------------- object fields
 
 type objInfo struct {
-	field   string
-	typ     *fnType // k "obj", name St_<field>
-	iface   *ast.TypeSpec
-	pkg     string // foreign: the import name, and the type
-	tname   string
-	targs   []ast.Expr
-	writes  []string // receiver fields the methods may write (spec writes:Type.field:...)
-	methods map[string]*fnType
+	field    string
+	typ      *fnType // k "obj", name St_<field>
+	iface    *ast.TypeSpec
+	pkg      string // foreign: the import name, and the type
+	tname    string
+	targs    []ast.Expr
+	writes   []string // receiver fields the methods may write (spec writes:Type.field:...)
+	concrete bool     // the state is not abstract: a named map type of another package
+	methods  map[string]*fnType
 }
 
 func baseAndArgs(e ast.Expr) (ast.Expr, []ast.Expr) {
@@ -162,6 +163,18 @@ func (c *fnCtx) objectField(recvType, f string, t ast.Expr) *objInfo {
 			return o
 		}
 	}
+	if sel, ok := base.(*ast.SelectorExpr); ok {
+		if id, ok := sel.X.(*ast.Ident); ok && id.Obj == nil && c.g.foreignFiles(c, id.Name) != nil {
+			o.pkg, o.tname, o.targs = id.Name, sel.Sel.Name, args
+			// a named map type of another package: the state is the map itself (it can be
+			// ranged over and measured); its methods are function arguments all the same
+			if mt := c.foreignNamedMapTypeOf(sel, args); mt != nil {
+				o.typ = mt
+				o.concrete = true
+			}
+			return o
+		}
+	}
 	return nil
 }
 
@@ -191,7 +204,7 @@ func (c *fnCtx) objCallOf(v *ast.CallExpr) (*fnVar, string) {
 	if !ok || !c.isRecv(inner.X) {
 		return nil, ""
 	}
-	if fv := c.fields[inner.Sel.Name]; fv != nil && fv.typ.k == "obj" {
+	if fv := c.fields[inner.Sel.Name]; fv != nil && c.objs[inner.Sel.Name] != nil {
 		return fv, sel.Sel.Name
 	}
 	return nil, ""
@@ -271,13 +284,41 @@ func (c *fnCtx) objMethodType(fv *fnVar, m string, at ast.Node) *fnType {
 	} else {
 		fd := c.g.foreignMethod(c, o.pkg, o.tname, m, at)
 		_, _, names := recvInfo(fd)
-		c.withTypeArgs(names, o.targs, at, func() { ft = c.goType(fd.Type) })
+		if fd.Recv == nil {
+			names = nil // a method of an interface of the other package
+			if len(o.targs) > 0 {
+				c.lostAt(at, "method %s.%s of a generic interface of another package", o.field, m)
+			}
+		}
+		saved := c.foreignPkg
+		c.foreignPkg = o.pkg
+		func() {
+			defer func() { c.foreignPkg = saved }()
+			if fd.Recv == nil {
+				ft = c.goType(fd.Type)
+			} else {
+				c.withTypeArgs(names, o.targs, at, func() { ft = c.goType(fd.Type) })
+			}
+		}()
 	}
-	for _, p := range append(append([]*fnType{}, ft.params...), ft.res...) {
+	for i, p := range ft.params {
 		switch p.k {
-		case "int", "byte", "bool", "string", "elem", "struct":
+		case "int", "byte", "bool", "string", "elem", "struct", "unit":
+		case "slice":
+			if !(ft.variadic && i == len(ft.params)-1) || p.elem.k == "slice" || p.elem.k == "map" {
+				c.lostAt(at, "method %s.%s with a slice parameter (aliasing)", o.field, m)
+			}
 		default:
-			c.lostAt(at, "method %s.%s with a parameter or result of type %s", o.field, m, p.k)
+			c.lostAt(at, "method %s.%s with a parameter of type %s", o.field, m, p.k)
+		}
+	}
+	for _, p := range ft.res {
+		switch p.k {
+		case "int", "byte", "bool", "string", "elem", "struct", "unit":
+		case "map":
+			// handed back by content; which map object it is, is not represented
+		default:
+			c.lostAt(at, "method %s.%s with a result of type %s", o.field, m, p.k)
 		}
 	}
 	o.methods[m] = ft
@@ -286,53 +327,32 @@ func (c *fnCtx) objMethodType(fv *fnVar, m string, at ast.Node) *fnType {
 
 // foreignMethod: the declaration of (pkg.T).m in another package of the same module.
 func (g *fnGen) foreignMethod(c *fnCtx, pkg, tname, m string, at ast.Node) *ast.FuncDecl {
-	path := ""
-	for _, imp := range g.file.Imports {
-		p, err := strconv.Unquote(imp.Path.Value)
-		if err != nil {
-			continue
-		}
-		name := p[strings.LastIndexByte(p, '/')+1:]
-		if imp.Name != nil {
-			name = imp.Name.Name
-		}
-		if name == pkg {
-			path = p
-		}
+	files := g.foreignFiles(c, pkg)
+	if files == nil {
+		c.lostAt(at, "package %s (source not found)", pkg)
 	}
-	if path == "" {
-		c.lostAt(at, "package %s (not imported)", pkg)
-	}
-	files, ok := g.foreign[path]
-	if !ok {
-		// the module root: the nearest go.mod above the file
-		dir := filepath.Dir(fset.Position(g.file.Pos()).Filename)
-		root, mod := "", ""
-		for d := dir; ; d = filepath.Dir(d) {
-			if data, err := os.ReadFile(filepath.Join(d, "go.mod")); err == nil {
-				for _, line := range strings.Split(string(data), "\n") {
-					if strings.HasPrefix(line, "module ") {
-						root, mod = d, strings.TrimSpace(strings.TrimPrefix(line, "module "))
-					}
+	// a method of an interface type of that package
+	for _, f := range files {
+		for _, d := range f.Decls {
+			gd, ok := d.(*ast.GenDecl)
+			if !ok || gd.Tok != token.TYPE {
+				continue
+			}
+			for _, sp := range gd.Specs {
+				ts := sp.(*ast.TypeSpec)
+				it, isIface := ts.Type.(*ast.InterfaceType)
+				if !isIface || ts.Name.Name != tname {
+					continue
 				}
-				break
-			}
-			if d == filepath.Dir(d) {
-				break
-			}
-		}
-		if root != "" && (path == mod || strings.HasPrefix(path, mod+"/")) {
-			pdir := filepath.Join(root, strings.TrimPrefix(strings.TrimPrefix(path, mod), "/"))
-			ents, _ := os.ReadDir(pdir)
-			for _, e := range ents {
-				if strings.HasSuffix(e.Name(), ".go") && !strings.HasSuffix(e.Name(), "_test.go") {
-					if f, err := parser.ParseFile(fset, filepath.Join(pdir, e.Name()), nil, 0); err == nil {
-						files = append(files, f)
+				for _, mf := range it.Methods.List {
+					for _, n := range mf.Names {
+						if ft, ok := mf.Type.(*ast.FuncType); ok && n.Name == m {
+							return &ast.FuncDecl{Name: ast.NewIdent(m), Type: ft}
+						}
 					}
 				}
 			}
 		}
-		g.foreign[path] = files
 	}
 	for _, f := range files {
 		for _, d := range f.Decls {
@@ -345,6 +365,45 @@ func (g *fnGen) foreignMethod(c *fnCtx, pkg, tname, m string, at ast.Node) *ast.
 	}
 	c.lostAt(at, "method %s.%s.%s (source not found in the module)", pkg, tname, m)
 	return nil
+}
+
+// parseImport: the non-test files of an imported package: a package of the module (the nearest
+// go.mod above the file being translated) or of the standard library (GOROOT/src).
+func (g *fnGen) parseImport(path string) []*ast.File {
+	var files []*ast.File
+	dir := filepath.Dir(fset.Position(g.file.Pos()).Filename)
+	root, mod := "", ""
+	for d := dir; ; d = filepath.Dir(d) {
+		if data, err := os.ReadFile(filepath.Join(d, "go.mod")); err == nil {
+			for _, line := range strings.Split(string(data), "\n") {
+				if strings.HasPrefix(line, "module ") {
+					root, mod = d, strings.TrimSpace(strings.TrimPrefix(line, "module "))
+				}
+			}
+			break
+		}
+		if d == filepath.Dir(d) {
+			break
+		}
+	}
+	pdir := ""
+	if root != "" && (path == mod || strings.HasPrefix(path, mod+"/")) {
+		pdir = filepath.Join(root, strings.TrimPrefix(strings.TrimPrefix(path, mod), "/"))
+	} else if !strings.Contains(strings.SplitN(path, "/", 2)[0], ".") {
+		pdir = filepath.Join(goroot(), "src", path)
+	}
+	if pdir == "" {
+		return nil
+	}
+	ents, _ := os.ReadDir(pdir)
+	for _, e := range ents {
+		if strings.HasSuffix(e.Name(), ".go") && !strings.HasSuffix(e.Name(), "_test.go") {
+			if f, err := parser.ParseFile(fset, filepath.Join(pdir, e.Name()), nil, 0); err == nil {
+				files = append(files, f)
+			}
+		}
+	}
+	return files
 }
 
 // typeKnownExtra fills in the type of a function argument whose type does not depend on a call:
@@ -414,21 +473,34 @@ func (c *fnCtx) typeKnownExtra(key string) {
 func (c *fnCtx) objCall(fv *fnVar, m string, v *ast.CallExpr, pre *[]fnBind, want []string) ([]string, []*fnType) {
 	o := c.objOf(fv)
 	ft := c.objMethodType(fv, m, v)
-	if len(v.Args) != len(ft.params) || v.Ellipsis.IsValid() {
+	nfix := len(ft.params)
+	if ft.variadic {
+		nfix--
+	}
+	if v.Ellipsis.IsValid() || len(v.Args) < nfix || (!ft.variadic && len(v.Args) != nfix) {
 		c.lostAt(v, "call of %s.%s (arity)", o.field, m)
 	}
 	x := c.extras["obj:"+o.field+"."+m]
 	if x == nil {
 		c.lostAt(v, "call of %s.%s here", o.field, m)
 	}
+	snap := c.rangedSnapshot(pre, fv)
 	s := x.name + " " + fv.name
 	for _, w := range o.writes {
 		s += " " + c.fields[w].name
 	}
-	for _, a := range v.Args {
+	var rest []string
+	for i, a := range v.Args {
 		y, yt := c.expr(a, pre)
 		c.noAlias(a, yt)
-		s += " " + paren(y)
+		if i >= nfix {
+			rest = append(rest, y)
+		} else {
+			s += " " + paren(y)
+		}
+	}
+	if ft.variadic {
+		s += " [" + strings.Join(rest, "; ") + "]"
 	}
 	var res []string
 	for i := range ft.res {
@@ -444,6 +516,7 @@ func (c *fnCtx) objCall(fv *fnVar, m string, v *ast.CallExpr, pre *[]fnBind, wan
 		pat = append(pat, c.fields[w].name)
 	}
 	*pre = append(*pre, fnBind{pat: tuple(pat), m: tRaw{s}, effect: true})
+	c.nogrowCheck(pre, snap)
 	return res, ft.res
 }
 
@@ -466,9 +539,7 @@ func (c *fnCtx) mapEqb(t *fnType, at ast.Node) string {
 	case "string":
 		return "str_eqb"
 	case "elem":
-		if x := c.extras["eqb:"+t.key.name]; x != nil {
-			return x.name
-		}
+		return c.mapEqbVar(t).name
 	}
 	c.lostAt(at, "equality on the map key type %s here", t.key.k)
 	return ""
@@ -476,7 +547,12 @@ func (c *fnCtx) mapEqb(t *fnType, at ast.Node) string {
 
 func (c *fnCtx) mapEqbVar(t *fnType) *fnVar {
 	if t != nil && t.k == "map" && t.key.k == "elem" {
-		return c.extras["eqb:"+t.key.name]
+		key := "eqb:" + t.key.name
+		if c.extras[key] == nil {
+			c.extra(key, "eqb_"+t.key.name)
+			c.typeKnownExtra(key)
+		}
+		return c.extras[key]
 	}
 	return nil
 }
